@@ -6,7 +6,7 @@
 From Coq Require Import List NArith Sorted.
 From Coq.Strings Require Import Byte.
 From GM Require Import Base.Lts Codec.Packet Client.Service Client.ServiceSpec Client.ServiceProofs Client.ServiceStop
-  Client.ServiceFutures Client.ServiceSet Client.ServiceTheorems.
+  Client.ServiceFutures Client.ServiceSet Client.ServiceTheorems Client.ServiceScan Client.ServiceProgress.
 Import ListNotations.
 Open Scope N_scope.
 
@@ -108,6 +108,29 @@ Theorem C17_fifo_ok_sound : forall issued seen, fifo_ok seen issued = true -> Su
 Proof. exact fifo_ok_sound. Qed.
 Print Assumptions C17_fifo_ok_sound.
 
+(* ---- clauses judged on the observed event sequence alone (ServiceSpec.v): every accepted trace satisfies them, so an
+   observed trace that does not is a failing input for the clause, whatever the monitor's state *)
+
+(* lifecycle: Start returns true iff no supervisor is running or being stopped, Stop returns true iff one is running, and
+   the supervisor is active only between such a Start and the return of the Stop that ends it *)
+Theorem C17_scan_lifecycle : forall c es s, run step (init c) es = Some s -> life_ok es = true.
+Proof. exact life_ok_accepted. Qed.
+Print Assumptions C17_scan_lifecycle.
+
+(* dispatch gate: a command reaches the client only on a connection that came online and whose resubscribe request (if
+   any) was acknowledged; after a failed dispatch / Disconnect / end of the connection, not before the next one is online *)
+Theorem C17_scan_gate : forall c es s, run step (init c) es = Some s -> gate_ok es = true.
+Proof. exact gate_ok_accepted. Qed.
+Print Assumptions C17_scan_gate.
+
+(* "the service reconnects": no control point traps the supervisor — from every one (except a Stop in progress) a finite
+   sequence of events (backoff elapses, connect succeeds, resubscribe acknowledged) leads into the dispatcher *)
+Theorem C17_reconnect_possible : forall s,
+  sp s <> SIdle -> sp s <> SEnded -> sp s <> SClosing true ->
+  exists es s', run step s es = Some s' /\ sp s' = SDispatch.
+Proof. exact reconnect_possible. Qed.
+Print Assumptions C17_reconnect_possible.
+
 (* ---- non-vacuity: accepted traces that exercise the hypotheses *)
 
 Definition ta : topic := [x61].
@@ -140,3 +163,13 @@ Example C17_nonvacuous_stop :
                futs s' = [(0, FCompleted 1); (1, FCancelled CReplaced); (2, FCancelled CStopClear); (3, FCancelled CStopClear)] /\
                dtags s = [(0, 1); (1, 1); (2, 2)] /\ ready s = 2.
 Proof. eexists; eexists. split; [vm_compute; reflexivity|]. vm_compute. repeat split. Qed.
+
+(* the scanners do reject: a Start that returns true on a running service; supervisor activity after Stop returned;
+   a command handed out before the resubscribe request was acknowledged; a dispatch after a failed one *)
+Example C17_scanners_reject :
+  life_ok [EStartCall; EStartRet true; EStartCall; EStartRet true] = false /\
+  life_ok [EStartCall; EStartRet true; ENext; EStopCall true; ESupExit; EStopRet true; EOffline] = false /\
+  gate_ok [ENext; EOnline false; EResubSend 1 [(ta, 1)] true; EDispSend 2 (BPub msg1) true] = false /\
+  gate_ok [ENext; EOnline false; EDispSend 1 (BPub msg1) false; EDispErr KPub; EDispSend 2 (BPub msg1) true] = false /\
+  gate_ok trace2 = true /\ life_ok (trace2 ++ [EStopRet true]) = true.
+Proof. vm_compute. repeat split. Qed.
